@@ -110,8 +110,13 @@ CLAIMS['C09'] = dict(
           "containers of ~150 Rust types and thousands of generated hostile containers (decoded by the real code from "
           "bytes) through max_serialized_size vs the model; every reported result is also judged by specMax "
           "(contchk lines: a disagreement there is a property violation); oracle: no value encodes longer than the "
-          "reported bound, no panic. Partial: the error direction (overflow/recursive/missing reported exactly when "
-          "...) is tied by the specMax comparison, not yet by a theorem."),
+          "reported bound, no panic. Also proved for every container: C09_complete (a finite maximum that fits the "
+          "address space is always reported), C09_ok_iff (a bound is reported iff specMax is finite and < 2^64, and "
+          "then equals it), C09_error_iff (an error iff there is no representable bound), C09_never_panics "
+          "(pigeonhole on the duplicate-free stack of defined declarations: |definitions|+1 levels suffice). "
+          "Partial: specMax is an executable specification with the same cycle rule (a declaration met again on the "
+          "current path is unbounded), not a semantic supremum over all values; which of several simultaneous errors "
+          "is reported is compared per case only."),
     technique="Lean 4 proof (exactness by induction on the fuelled evaluation) + differential check incl. specification verdict per case",
     design_ref="§5 C09")
 CLAIMS['C10'] = dict(
@@ -121,8 +126,12 @@ CLAIMS['C10'] = dict(
           "(regression witnesses of the repaired findings F3/F2). Differential run: validate() of the real code vs "
           "the model on containers of all schema types and thousands of generated hostile containers (extreme "
           "ranges, widths 0..255, cycles, repeated zero-sized members, dangling names), panics caught; compared: "
-          "Ok/Err, error variant and the declaration named. Partial: totality and the iff with the declarative "
-          "well-formedness predicate are not yet theorems."),
+          "Ok/Err, error variant and the declaration named. Also proved for every container: C10_never_panics / "
+          "C10_zero_size_never_panics (validation and the zero-size analysis are total: no panic, no fuel "
+          "exhaustion), C10_error_is_real (a reported error names a declaration whose own definition has exactly "
+          "that defect; a missing name is absent). Partial: the iff with the declarative well-formedness predicate "
+          "wellFormedDec (least fixed point of zero-sizedness, reachability) is evaluated per case by the contval "
+          "verdict lines, not proved."),
     technique="Lean 4 model of validate/is_zero_size with kernel-checked lemmas + differential check on generated containers",
     design_ref="§5 C10")
 CLAIMS['C14'] = dict(
